@@ -401,7 +401,10 @@ PROPS["C02"] = _sys("C02", ["policy", "mgr"],
     "and reconciled, not the UID of an object just applied, not dry-run) and then names the object with the planning-time UID as precondition and "
     "the configured propagation policy; the only other request is the annotation removal for a prevention-annotated object; such an object is "
     "abandoned and loses the annotation, any other spared object is recorded as skipped (hence retained, C03); an existing object is handed to "
-    "kubectl only if the policy accepts its owner. Tie: exhaustive grid through the real policy functions and stateless filters (domain policy), "
+    "kubectl only if the policy accepts its owner. Whole run (request_provenance, for EVERY cluster and run): every mutating request is an inventory "
+    "write, the bootstrap create of the inventory namespace, a create/patch of a VALID object of the apply set, or a delete / annotation removal of a "
+    "VALID prune candidate — an object listed in the stored inventory at the start of the run, existing, and not in the apply set (delete_only_tracked, "
+    "apply_only_manifests). Tie: exhaustive grid through the real policy functions and stateless filters (domain policy), "
     "the real inventory Manager whose AppliedResourceUIDs feeds the just-applied filter (domain mgr, shared with C19), "
     "whole runs with a recording API server that sees Delete options (domain sys-C02).",
     "Spec predicates on the implementation: every observed DELETE is authorised (in previous inventory, not in apply set, policy, annotations, "
@@ -412,7 +415,10 @@ PROPS["C04"] = _sys("C04", ["depfilter", "wait", "depgraph"],
     "(outside dry-run) recorded as reconciled (iff, for all tables and dependency lists); an object is handed to kubectl only if the gate passed "
     "for all edges of the run's graph; if any dependency blocks (failed/skipped/pending actuation, failed/timed-out/skipped/pending reconcile, "
     "invalid, unregistered, scheduled for deletion) no request is sent, the store is unchanged and exactly one Skipped/Failed event is emitted. "
-    "Reconciled means, by C06, last observed Current at a generation >= the applied one. Tie: exhaustive cells through the real DependencyFilter "
+    "Reconciled means, by C06, last observed Current at a generation >= the applied one. Whole run (apply_requests_ordered, for EVERY cluster and run): "
+    "every create/patch request of a run is preceded in the run's own event list by a Successful apply result of each dependency (every edge of the run's "
+    "graph) whose last wait event before the request is Successful (outside dry-run) — the predicate the correspondence evaluates, proved on the model "
+    "(apply_requests_ordered_spec restates it with the Spec functions). Tie: exhaustive cells through the real DependencyFilter "
     "(domain depfilter: 2 strategies x 3 dry-run modes x 82 relation states, singles and pairs), the real WaitTask that records 'reconciled' "
     "(domain wait, shared with C06), whole runs (sys-C04).",
     "Spec predicate: for every observed apply request, each dependency (explicit, mutation source, namespace) has an earlier Successful apply event "
@@ -421,7 +427,8 @@ PROPS["C05"] = _sys("C05", ["depfilter", "depgraph"],
     "Theorems: a delete request is sent only if every dependent (all incoming edges of the run's graph: apply set and stored inventory) has been "
     "deleted successfully and (outside dry-run) recorded as reconciled; a dependent that is still applied, whose delete failed/was skipped/did not "
     "complete, or that is invalid blocks the delete (no request); the reversed layering puts a dependency in a strictly later delete layer than its "
-    "dependents (from C14). Blocked dependencies are recorded as skipped/failed deletes and therefore stay in the inventory (C03 formula). "
+    "dependents (from C14). Whole run (delete_requests_ordered, for EVERY cluster and run): every delete request is preceded by a Successful delete result of "
+    "every dependent whose last wait event before the request is Successful (outside dry-run). Blocked dependencies are recorded as skipped/failed deletes and therefore stay in the inventory (C03 formula). "
     "Tie: domain depfilter (strategy delete), whole runs (sys-C05).",
     "Spec predicate: for every observed DELETE, each existing dependent has an earlier Successful delete event and, outside dry-run, its last wait "
     "event before the request is Successful; no delete while a dependent is in the apply set.")
@@ -444,12 +451,14 @@ PROPS["C01"] = _sys("C01", [],
     "generated history of the real implementation (and of the model), with every request index injected as failure point by the generator.",
     "Spec predicate noOrphans on every snapshot: every object carrying this inventory's annotation is listed in the stored inventory (the inventory "
     "namespace is exempt until the stored inventory has listed it once).",
-    ["the composition of the per-step theorems into one prefix-invariant theorem over runOne is not machine-checked (stated in Props/C01.lean)"])
+    ["the final inventory task is not yet part of the machine-checked invariant (no_orphan_from_start covers every request from the start of an apply "
+     "run up to that task; see Props/C01.lean / C01F.lean for what is proved about the final task)"])
 PROPS["C03"] = _sys("C03", [],
     "Theorems: the inventory formula as an exact membership characterisation of the final inventory (successful applies + tracked objects whose "
     "apply/delete failed or was skipped or whose reconcile failed/timed out, minus abandoned, + tracked invalid), no repeats, nothing foreign; "
     "a successful destroy leaves nothing to retain; fixpoint components: kubectl's client-side apply of an unchanged object sends no request, the "
-    "merge and the final replace write nothing when the set is unchanged. Model equivalence itself is the trace correspondence: the Lean run model "
+    "merge and the final replace write nothing when the set is unchanged (StatusPolicyNone); the final task, when it succeeds, stores exactly the formula "
+    "and touches no object (final_task_writes_formula), a timed-out tracked object stays (timed_out_object_stays). Model equivalence itself is the trace correspondence: the Lean run model "
     "stepped with the same histories produces the same stored inventory and store as the implementation after every run.",
     "Spec predicate: after every run without error event: applied objects live+annotated, completed deletes gone, stored inventory = formula from "
     "the observed events; an identical clean re-apply sends no effective create/delete and leaves the inventory unchanged; destroy leaves nothing managed.",
@@ -458,15 +467,22 @@ PROPS["C11"] = _sys("C11", ["depgraph"],
     "Theorems: every invalid id is named in a validation error (invalid_named); no task of any plan — inventory-add, apply, prune, wait — names "
     "an invalid id, so none is ever sent or merged into the inventory (plan_excludes_invalid, merged_ids_valid); under exit-early a run with "
     "validation errors makes no mutating request and emits only the error event (exit_early_no_mutation, for every cluster and run); objects "
-    "depending on an invalid object are not applied (dependent_of_invalid_not_applied); tracked invalid objects stay in the inventory (C01.keeps_invalid).",
+    "depending on an invalid object are not applied (dependent_of_invalid_not_applied); tracked invalid objects stay in the inventory (C01.keeps_invalid). "
+    "Whole run (invalid_never_sent, named_never_sent, field_invalid_never_sent, for EVERY cluster and run): no request of a run other than inventory writes "
+    "is for an id of the plan's invalid set; an id named in any validation error, and any manifest failing field validation, is the id of no request.",
     "Spec predicate: invalid objects (9 generated families) never appear in the request log, are named in validation events, are not added to any "
     "inventory snapshot, stay if tracked; exit-early runs have an empty request log and an error event; dependents are not applied.")
 PROPS["C12"] = _sys("C12", ["wait"],
     "Theorems: when the deadline fires Timeout is reported for exactly the pending objects (C06); after an abort (cancellation, watcher failure, "
     "task error) the running task is finished and exactly one error event ends the run, no later task starts (cancel_no_new_phase); at most one "
     "error event, only last (single_error_last); cancelling emits nothing and apply/prune steps leave the stored inventory as merged "
-    "(cancel_keeps_inventory). Real time (a deadline never fires early, termination within bounded time) is a runtime fact: the harness configures "
-    "a short real timeout and compares only presence/absence and order of Timeout events.",
+    "(cancel_keeps_inventory). Whole run: no Timeout event without a configured timeout (timeout_only_if_configured); when the deadline fires the appended "
+    "events are Timeout for exactly the pending objects, they are recorded as timed out, nothing else changes and the task reports no error "
+    "(timeout_for_exactly_pending_in_run); a timeout is not an error and the later phases are run (timeout_is_not_an_error, timeout_run_continues); once "
+    "cancelled no further status delivery changes anything (cancel_stops_wait_deliveries); every request of a run that ended with an error event was made "
+    "before that event was emitted (no_request_after_error). Real time (a deadline never fires early, termination within bounded time) is a runtime fact: the harness configures "
+    "distinct short real reconcile / prune timeouts, requires every Timeout event to come no earlier than the timeout configured for its phase, and that a "
+    "run which hangs ends within 3 s of cancelling the context.",
     "Spec predicate: Timeout only with a timeout configured and only for objects whose last wait event was Pending; nothing after the error event; "
     "no request after the channel closed (C13) and no orphan after cancellation (C01).",
     ["Go's context.WithTimeout / timers are trusted not to fire early"])
@@ -474,9 +490,10 @@ PROPS["C13"] = _sys("C13", ["print"],
     "Theorems: apply and prune steps emit exactly one non-pending result event per object naming their group (applyOne_one_event, "
     "pruneOne_one_event); a wait phase emits exactly one wait event per object at its start; every step emits only item events "
     "(runTask_onlyItems, incl. the whole wait-phase machinery); the runner brackets every task with started/finished and emits at most one "
-    "error event, only as the last event (runTasks_error_last). The run model is a total function: every run terminates with a complete stream. "
+    "error event, only as the last event (runTasks_error_last). run_stream_well_formed: for EVERY cluster and EVERY run (any options, faults, cancellation "
+    "point, watcher error) the complete event stream of the model is accepted by the C13 grammar for the plan carried by its own init event — the very "
+    "predicate evaluated on the implementation's streams. The run model is a total function: every run terminates with a complete stream. "
     "The full event grammar (Spec.eventsWellFormed, shared with C20 where properties of well-formed streams are proved) is evaluated on every "
     "stream of the real implementation; channel closure, hangs (20 s watchdog) and requests after close are observed by the harness.",
     "Spec predicate: stream accepted by the grammar for its own plan event, channel closed, no request after close, no hang / panic.",
-    ["closure of the Go channel and absence of late goroutines are observed, not proved",
-     "acceptance of the grammar by ALL model runs is not proved as one theorem"])
+    ["closure of the Go channel and absence of late goroutines are observed, not proved"])
